@@ -16,7 +16,7 @@ def agrees(res, extra):
 
 # ---------------------------------------------------------------- random formats and (mostly well-formed) recipes
 LETTERS = "abcdefghkmnpqrtuvw"
-VALS = {"str": ["x", "null", "-q", "a=b", "add", "7", "x y", "é"[:0] + "e"], "int": ["7", "-3", "0", "42"], "bool": ["true", "0", "no", "1"]}
+VALS = {"str": ["x", "null", "-q", "a=b", "add", "7", "x y", "e", ""], "int": ["7", "-3", "0", "42"], "bool": ["true", "0", "no", "1"]}
 
 
 def rand_format(rng):
